@@ -84,6 +84,7 @@ def build_ops(case, tier):
     keys = HX.related_keys(case["m1"].keys())
     if len(keys) > (6 if tier == "quick" else 14):
         keys = rng.sample(keys, 6 if tier == "quick" else 14)
+    keys = [k for k in case.get("must_keys", []) if k not in keys] + keys
     other_nodes = []
     for k in list(case["m2"].keys())[:3]:
         other_nodes.extend(HX.raw_obs(n) for n in t2.get_proof(k))
@@ -151,7 +152,15 @@ def oracle(case, ops, meta, outs, r1, r2):
 def corpus():
     m = {b"\x12\x34\x56": b"a" * 40, b"\x12\x34\x57": b"b" * 40, b"\x12": b"c", b"": b"d" * 33}
     w = [("set", k, v, "meth") for k, v in m.items()]
-    return [{"w1": w, "w2": [("set", b"\x12\x34", b"z" * 35, "meth")], "m1": m, "m2": {b"\x12\x34": b"z" * 35}, "seed": 7, "long": False}]
+    out = [{"w1": w, "w2": [("set", b"\x12\x34", b"z" * 35, "meth")], "m1": m, "m2": {b"\x12\x34": b"z" * 35}, "seed": 7, "long": False}]
+    # absent keys that end exactly where an extension ends (its child branch stored by hash), below the root branch and at the root
+    for extra in ({b"\x77": b"x"}, {}):
+        m2 = {b"\x12\x34\x56": b"a" * 40, b"\x12\x34\x66": b"b" * 40}
+        m2.update(extra)
+        w2 = [("set", k, v, "meth") for k, v in m2.items()]
+        out.append({"w1": w2, "w2": [("set", b"\x12", b"z" * 35, "meth")], "m1": m2, "m2": {b"\x12": b"z" * 35}, "seed": 9,
+                    "long": False, "must_keys": [b"\x12\x34", b"\x12", b"\x12\x34\x56", b"\x12\x34\x50"]})
+    return out
 
 
 def check(tier, seed):
